@@ -35,7 +35,7 @@ func encode(ins []gojq.VerifInstr) string {
 		case "native":
 			arg = fmt.Sprintf("@%s/%d", in.Name, in.Argc)
 		case "value":
-			arg = "v"
+			arg = "v" + common.Hex(common.Canon(in.Value))
 		}
 		sb.WriteString(in.Op + "|" + tgt + "|" + arg)
 	}
